@@ -502,7 +502,7 @@ def scenario(params, ch):
     n_clients, cross, order, latency = params
     mon = HandshakeMonitor()
     w = World(n_clients=n_clients, root_index=ROOT, key_offset=KOFF, order=order, latency=latency, chooser=ch, monitors=[mon],
-              fates=["drop", "dup", "delay2", "delay8"])
+              fates=[] if cross == "reconnect" else ["drop", "dup", "delay2", "delay8"])
     try:
         # the hellos emitted inside World() were emitted before fates could be asked? no: fates are set in the constructor
         pinned = w.root_key.getPublicKey()
@@ -526,6 +526,27 @@ def scenario(params, ch):
             mon.check_clients(w, pinned)
             if t == 12:
                 w.fates = []
+        if cross == "reconnect":
+            # second session on the SAME UdpClient object: graceful disconnect, then connect() again under faults
+            first = [(ce.conn.session_key_bytes, ce.conn.token) for ce in w.clients]
+            for ce in w.clients:
+                ce.client.disconnect()
+            w.run(12)
+            for ce in w.clients:
+                ce.client.forceDisconnect()
+            w.run(2)
+            mon.last_sh.clear()
+            w.fates = ["drop", "dup", "delay2", "delay8"]
+            for ce in w.clients:
+                w.client_reconnect(ce.index)
+            for t in range(40):
+                w.tick()
+                mon.check_clients(w, pinned)
+                if t == 12:
+                    w.fates = []
+            for ce, (k0, tok0) in zip(w.clients, first):
+                if ce.conn.session_key_bytes is not None and ce.conn.session_key_bytes == k0:
+                    ch.flag("key-agreement", "a second connect() of the same client object ends up with the key of the previous session", "client %d" % ce.index)
         ch.steps = w.tickno
         res = []
         for ce in w.clients:
@@ -579,6 +600,7 @@ def run(tier, seed):
         fold(r[1])
     plist = [(1, None, o, l) for o, l in (("cs", 1), ("sc", 0), ("cs", 0), ("sc", 1))]
     plist += [(2, None, "cs", 1), (2, "SH", "cs", 1), (2, "CR", "cs", 1), (2, "CR-data", "cs", 1)]
+    plist += [(1, "reconnect", "cs", 1), (1, "reconnect", "sc", 0)]
     if tier == "thorough":
         plist += [(2, None, "sc", 0), (2, "SH", "sc", 0), (2, "CR", "sc", 0), (2, "CR-data", "sc", 0), (3, None, "cs", 1)]
     st = explore.explore_all("checks.c02", "scenario", plist, 2 if tier == "quick" else 3, time_budget=(150 if tier == "quick" else 1500))
